@@ -4,7 +4,7 @@ import sys
 import time
 import traceback
 
-from . import common, facts, interp, wire, rules_wire, rules_header, rules_hash, golden, hashrec, rules_align, gen_units, guards, rules_eps, rules_err, rules_schema
+from . import common, facts, interp, wire, rules_wire, rules_header, rules_hash, golden, hashrec, rules_align, gen_units, guards, rules_eps, rules_err, rules_schema, rules_loader
 from .common import Report, Facts, ExportError
 
 ASSUME_COMMON = [
@@ -618,7 +618,159 @@ def check_C18(ctx):
             "(offsets taken from pos() before the bytes, sizes from the bytes written). Tiling for every value and failure-freedom of rendering for every schema/data pair are not decided.")
 
 
-CHECKS = {"C18": check_C18, "C12": check_C12, "C03": check_C03, "C11": check_C11, "C16": check_C16, "C07": check_C07, "C04": check_C04, "C06": check_C06, "C10": check_C10, "C01": check_C01, "C02": check_C02, "C15": check_C15, "C05": check_C05}
+def check_C08(ctx):
+    rep = ctx.rep
+    rep.rule("STORE", "store = create+truncate the destination, one buffered serialize of self, failure propagated")
+    rep.rule("ARG", "each loader hands deserialize_eps the bytes of the backend at its final place inside the MemCase being built")
+    rep.rule("FILL", "copying loaders zero-fill [file_len..capacity) after reading the file and before deserializing")
+    rep.rule("CAP", "copying loaders allocate file_len + pad_align_to(file_len, K), K a positive power of two equal to the allocation alignment")
+    rep.rule("SHAPE", "MemCase(structure, backend) in this order, no Drop impl, Send/Sync bounded by S, backends own their memory through a pointer, heap region alignment 64, no method gives away the structure or the backend")
+    rep.rule("FLAGS", "every Flags constant is translated to the mmap_rs flag of the same name")
+    rep.rule("P-ERR", "results in deser/mod.rs and ser/mod.rs are propagated")
+    nload = 0
+    for config, floor in (("default", 3), ("nommap", 1)):
+        try:
+            u = ctx.universe(config)
+        except ExportError as ex:
+            rep.add("BUILD", config, "feature configuration %s does not compile: %s" % (config, str(ex)[-300:]))
+            continue
+        sub = Report("C08", ctx.tier)
+        n = rules_loader.rule_loader_paths(u, sub, want=("ARG", "FILL"))
+        rules_loader.rule_capacity(u, sub)
+        rules_loader.rule_memcase_shape(u, sub)
+        rules_loader.rule_store(u, sub)
+        if config == "default":
+            ok = rules_loader.rule_flags(u, sub)
+            if not ok:
+                sub.add("ANCHOR", "mmap_flags", "cannot locate the flag translation function")
+        rules_err.rule_PERR(u, sub, ("epserde/src/deser/mod.rs", "epserde/src/ser/mod.rs", "epserde/src/deser/mem_case.rs"))
+        sub.floor("loaders analysed [%s]" % config, n, floor)
+        for f in sub.findings:
+            f.key = "%s[%s]" % (f.key, config) if config != "default" else f.key
+            rep.findings.append(f)
+        rep.obligations += sub.obligations
+        rep.discharged += sub.discharged
+        rep.floors += sub.floors
+        for k, v in sub.counters.items():
+            rep.counters["%s[%s]" % (k, config)] = v
+        nload += n
+    return ("Path rules over the three loaders and store in both feature configurations (default and no-mmap), plus shape rules on MemCase/MemBackend and the flag translation. "
+            "Equality of loaded and directly deserialized structures as values, and what the OS does with mmap flags, are not decided.")
+
+
+def check_C09(ctx):
+    rep = ctx.rep
+    rep.rule("LEAK", "on every path of a loader, once the backend has been written into the MaybeUninit MemCase, the function leaves only through assume_init or after drop_in_place of that field")
+    rep.rule("RAW", "no fallible step between a raw allocation and the value that takes ownership of it")
+    rep.rule("SHAPE", "drop order structure -> backend by declaration order, no Drop impl, no API that separates the structure from its backend")
+    rep.rule("WITNESS", "compile-fail probes: borrowed eps results cannot outlive their buffer; references obtained from a MemCase cannot outlive it")
+    rep.rule("S-WHO", "no forget / leak / into_raw / ManuallyDrop on a backend")
+    u = ctx.universe("default")
+    n = rules_loader.rule_loader_paths(u, rep, want=("LEAK", "RAW"))
+    rep.floor("loaders analysed", n, 3)
+    rules_loader.rule_memcase_shape(u, rep)
+    try:
+        u2 = ctx.universe("nommap")
+        sub = Report("C09", ctx.tier)
+        n2 = rules_loader.rule_loader_paths(u2, sub, want=("LEAK", "RAW"))
+        for f in sub.findings:
+            f.key = "%s[nommap]" % f.key
+            rep.findings.append(f)
+        rep.obligations += sub.obligations
+        rep.discharged += sub.discharged
+    except ExportError as ex:
+        rep.add("BUILD", "nommap", "feature configuration std,derive does not compile: %s" % str(ex)[-300:])
+    # nobody forgets / leaks a backend
+    bad = 0
+    for b in u.bodies.values():
+        if b.d.get("krate") != "epserde" or b.thir is None or not rules_err.in_scope(b, ("epserde/src/deser/",)):
+            continue
+        acc = []
+        rules_err.calls_in(b.crate, b.thir["root"], acc)
+        for (dj, rj, e) in acc:
+            if dj.get("name") in ("forget", "leak", "into_raw", "into_raw_parts") and dj.get("krate") in ("core", "alloc", "std"):
+                rep.oblige(False)
+                rep.add("S-WHO", "%s:%s" % (b.n, dj.get("name")), "`%s` calls %s: memory handed to the loaders must be released by ordinary drops" % (b.n, dj.get("n")), b.crate.span(e["sp"]))
+                bad += 1
+    rep.oblige(bad == 0)
+    from . import witness
+    witness.run_probes(ctx, rep, "C09")
+    return ("Ownership path rules over the loaders (backend released on every exit, raw allocations owned before any fallible step), shape rules on MemCase, and "
+            "compile-fail witnesses for the lifetime clauses. OS-level unmapping is not decided.")
+
+
+def check_C13(ctx):
+    rep = ctx.rep
+    rep.rule("P-ERR", "in ser/ and impls/: no Result is discarded, tested-and-forgotten or defaulted")
+    rep.rule("ERR-TO-OK", "no function of ser/ and impls/ returns Ok on a path where it has observed the Err of a callee")
+    rep.rule("S-WHO", "std::io::Write::write (the short-write form) is never called in ser/ and impls/: short writes and Interrupted are handled by write_all")
+    rep.rule("ALIAS-OWNER", "an owning container built over borrowed memory is wrapped in ManuallyDrop at creation or forgotten before any fallible step")
+    rep.rule("BLANKET", "the blanket WriteNoStd impl calls exactly Write::write_all / Write::flush and maps their result")
+    u = ctx.universe("default", CORPUS)
+    n = rules_err.rule_PERR(u, rep, SER_SCOPE)
+    rep.floor("Result-returning call sites in ser/impls", n, 60)
+    rules_err.rule_who_calls(u, rep, {"std::io::Write::write", "std::io::Write::write_vectored"}, SER_SCOPE, "S-WHO",
+                             "short writes must be handled by write_all")
+    m = rules_loader.rule_err_to_ok(u, rep, SER_SCOPE)
+    rep.floor("Result-returning functions path-checked", m, 60)
+    k = rules_loader.rule_alias_owner(u, rep, SER_SCOPE)
+    rep.floor("aliasing owners analysed", k, 1)
+    # blanket impl
+    nb = 0
+    for im in u.impls:
+        if im.trait and im.trait.endswith("::WriteNoStd") and im.self_ty[0] == "param":
+            for meth, want in (("write_all", "write_all"), ("flush", "flush")):
+                b = u.body(im.item_id(meth))
+                if b is None:
+                    continue
+                acc = []
+                rules_err.calls_in(b.crate, b.thir["root"], acc)
+                std_calls = [dj.get("n") for dj, _r, _e in acc if dj.get("krate") == "std"]
+                ok = std_calls == ["std::io::Write::" + want]
+                rep.oblige(ok)
+                nb += 1
+                if not ok:
+                    rep.add("BLANKET", meth, "the blanket WriteNoStd::%s calls %s instead of exactly std::io::Write::%s" % (meth, std_calls, want), b.loc())
+    rep.floor("blanket WriteNoStd methods", nb, 2)
+    return ("Error discipline of the whole serialization side (call-site classification and path check that no observed failure becomes success), who-may-call for the "
+            "short-write form, and ownership of aliasing containers. That the accepted bytes form a prefix of the fault-free output is a statement about runs and is not decided.")
+
+
+def check_C14(ctx):
+    rep = ctx.rep
+    rep.rule("S-WHO", "std::io::Read::read (short-read form) is never called in deser/ and impls/: fragmentation and Interrupted are delegated to read_exact's contract")
+    rep.rule("P-ERR", "in deser/ and impls/: no Result is discarded, tested-and-forgotten or defaulted")
+    rep.rule("ERR-TO-OK", "no function of deser/ and impls/ returns Ok on a path where it has observed the Err of a callee")
+    rep.rule("UNINIT", "set_len that exposes uninitialised elements before a fallible step only for element types without drop glue")
+    rep.rule("BLANKET", "the blanket ReadNoStd impl calls exactly Read::read_exact and maps its result")
+    u = ctx.universe("default", CORPUS)
+    rules_err.rule_who_calls(u, rep, {"std::io::Read::read", "std::io::Read::read_to_end", "std::io::Read::read_buf", "std::io::Read::read_vectored"}, DESER_SCOPE, "S-WHO",
+                             "short reads must be handled by read_exact")
+    n = rules_err.rule_PERR(u, rep, DESER_SCOPE)
+    rep.floor("Result-returning call sites in deser/impls", n, 60)
+    rules_loader.rule_err_to_ok(u, rep, DESER_SCOPE)
+    k = rules_loader.rule_uninit_exposed(u, rep, DESER_SCOPE)
+    rep.floor("set_len sites analysed", k, 1)
+    nb = 0
+    for im in u.impls:
+        if im.trait and im.trait.endswith("::ReadNoStd") and im.self_ty[0] == "param":
+            b = u.body(im.item_id("read_exact"))
+            if b is None:
+                continue
+            acc = []
+            rules_err.calls_in(b.crate, b.thir["root"], acc)
+            std_calls = [dj.get("n") for dj, _r, _e in acc if dj.get("krate") == "std"]
+            ok = std_calls == ["std::io::Read::read_exact"]
+            rep.oblige(ok)
+            nb += 1
+            if not ok:
+                rep.add("BLANKET", "read_exact", "the blanket ReadNoStd::read_exact calls %s instead of exactly std::io::Read::read_exact" % std_calls, b.loc())
+    rep.floor("blanket ReadNoStd methods", nb, 1)
+    return ("Fragmentation-independence is delegated to std's read_exact contract by showing that no other read primitive is used; failures are shown to be propagated at every call site; "
+            "partially built values are shown not to be dropped uninitialised. Equality of values under each chunking pattern is not decided.")
+
+
+CHECKS = {"C08": check_C08, "C09": check_C09, "C13": check_C13, "C14": check_C14, "C18": check_C18, "C12": check_C12, "C03": check_C03, "C11": check_C11, "C16": check_C16, "C07": check_C07, "C04": check_C04, "C06": check_C06, "C10": check_C10, "C01": check_C01, "C02": check_C02, "C15": check_C15, "C05": check_C05}
 
 
 def main(argv):
